@@ -54,13 +54,32 @@ type Node struct {
 }
 
 type lockedBuf struct {
-	mu sync.Mutex
-	b  bytes.Buffer
+	mu   sync.Mutex
+	b    bytes.Buffer
+	part []byte
 }
 
 func (l *lockedBuf) Write(p []byte) (int, error) {
 	l.mu.Lock()
 	defer l.mu.Unlock()
+	// drop the per-request access log lines of the goji logger; keep everything else
+	n := len(p)
+	l.part = append(l.part, p...)
+	for {
+		i := bytes.IndexByte(l.part, '\n')
+		if i < 0 {
+			break
+		}
+		line := l.part[:i+1]
+		if !(bytes.Contains(line, []byte("] Started ")) || bytes.Contains(line, []byte("] Returning "))) {
+			l.keep(line)
+		}
+		l.part = l.part[i+1:]
+	}
+	return n, nil
+}
+
+func (l *lockedBuf) keep(p []byte) (int, error) {
 	if l.b.Len() > 8<<20 {
 		// keep the tail only
 		tail := append([]byte(nil), l.b.Bytes()[l.b.Len()-(1<<20):]...)
